@@ -166,7 +166,7 @@ func drawOpts(r *rng, gp *genParser, memoPct, recoverFalsePct int) parsersim.Opt
 	if r.chance(1, 5) {
 		o.AllowInvalidUTF8 = true
 	}
-	if r.chance(1, 6) && len(gp.G.Rules) > 1 && !gp.LeftRec {
+	if r.chance(1, 6) && len(gp.G.Rules) > 1 {
 		o.Entrypoint = gp.G.Rules[r.intn(len(gp.G.Rules))].Name
 	}
 	if r.chance(1, 6) {
